@@ -59,7 +59,7 @@ type Reader struct {
 
 	opCode ws.OpCode                  // Used to store message op code on fragmentation.
 	frame  io.Reader                  // Used to as frame reader.
-	raw    io.LimitedReader           // Used to discard frames without cipher.
+	raw    limitedReader              // Used to discard frames without cipher.
 	utf8   UTF8Reader                 // Used to check UTF8 sequences if CheckUTF8 is true.
 	tmp    [ws.MaxHeaderSize - 2]byte // Used for reading headers.
 	cr     *CipherReader              // Used by NextFrame() to unmask frame payload.
@@ -192,10 +192,10 @@ func (r *Reader) NextFrame() (hdr ws.Header, err error) {
 
 	// Save raw reader to use it on discarding frame without ciphering and
 	// other streaming checks.
-	r.raw = io.LimitedReader{
+	r.raw = limitedReader{io.LimitedReader{
 		R: r.Source,
 		N: hdr.Length,
-	}
+	}}
 
 	frame := io.Reader(&r.raw)
 	if hdr.Masked {
@@ -256,17 +256,33 @@ func (r *Reader) fragmented() bool {
 }
 
 func (r *Reader) resetFragment() {
-	r.raw = io.LimitedReader{}
+	r.raw = limitedReader{}
 	r.frame = nil
 	// Reset source of the UTF8Reader, but not the state.
 	r.utf8.Source = nil
 }
 
 func (r *Reader) reset() {
-	r.raw = io.LimitedReader{}
+	r.raw = limitedReader{}
 	r.frame = nil
 	r.utf8 = UTF8Reader{}
 	r.opCode = 0
+}
+
+// limitedReader is an io.LimitedReader which reports io.ErrUnexpectedEOF if
+// the underlying reader is exhausted before N bytes of frame payload were read.
+// It prevents Discard(), intermediate frame handlers and other consumers of
+// the raw frame payload from treating a truncated payload as a complete one.
+type limitedReader struct {
+	io.LimitedReader
+}
+
+func (l *limitedReader) Read(p []byte) (n int, err error) {
+	n, err = l.LimitedReader.Read(p)
+	if err == io.EOF && l.N > 0 {
+		err = io.ErrUnexpectedEOF
+	}
+	return n, err
 }
 
 // readHeader reads a frame header from in.
